@@ -10,6 +10,7 @@ from construct.expr import this
 from dataclasses import dataclass
 from dataclasses import field
 from io import  IOBase
+from io import SEEK_SET
 import math
 from typing import Any
 from typing import ClassVar
@@ -111,6 +112,12 @@ class AkaiSample(SampleElement):
             sample_width=self.bytes_per_sample,
             num_interleaved_channels=1
         )
+        # a sample can be generalized (exported) more than once:
+        # always start from the beginning of its data
+        try:
+            self._data_stream.seek(0, SEEK_SET)
+        except OSError:  # placeholder stream that cannot seek
+            pass
         data_streams = [
             DataStream(stream=self._data_stream, encoding=stream_encoding)
         ]
